@@ -214,6 +214,8 @@ def facts : Facts := {
   encoderSkeleton := "5cbdaefa998ed87261c39697"
   resolverSkeleton := "dc943200c8dda6024f8f48fc"
   descTableSkeleton := "cbfebd4eaff63fd247cc0a76"
+  residualDefsSkeleton := "2f863e8ac98e98063831115e"
+  residualReflectSkeleton := "82e3c8dd9c9235ca4f17fb71"
   topLevelUsesLimit := true
   createLocksRechecksBuildsPublishes := true
   getIsReadOnly := true
